@@ -601,4 +601,25 @@ example : ∃ s outs, run init [.add 0 la 3, .add 1 la 4, .add 0 lc 3, .getPrior
     outs[3]? = some (.prio (some 3)) :=
   query_get_priority_decided [.add 0 la 3, .add 1 la 4, .add 0 lc 3] 0 la 3 [] (by decide) (by decide)
 
+/-! ### non-vacuity of the budget-event theorems (hypothesis audit, rounds 8-9) -/
+
+/-- `dispatch_budget_large`, hypothesis discharged: three listeners, a budget of 5 - the budget event behaves like the
+stock event (all three called, not stopped) -/
+example : ∃ s outs, run init [.add 0 la 0, .add 0 ld (-1), .add 0 lc 7, .dispatchN 0 5] = .ok (s, outs) ∧
+    outs[3]? = some (.called [lc, la, ld] false) := by
+  have h := dispatch_budget_large [.add 0 la 0, .add 0 ld (-1), .add 0 lc 7] 0 5 [] (by decide)
+  have e : callSeq (logOf [.add 0 la 0, .add 0 ld (-1), .add 0 lc 7]) 0 false
+      = [⟨0, 7, lc⟩, ⟨0, 0, la⟩, ⟨0, -1, ld⟩] := by decide
+  rw [e] at h
+  exact h
+
+/-- `dispatch_budget_zero` on the same history -/
+example : ∃ s outs, run init [.add 0 la 0, .dispatchN 0 0] = .ok (s, outs) ∧ outs[1]? = some (.called [] true) :=
+  dispatch_budget_zero [.add 0 la 0] 0 []
+
+/-- the hypotheses of `custom_event_faithful` are not empty: the budget event (stopped once `n` listeners saw it)
+violates `htouch` - it is modelled on its own (`dispatch_budget_spec`) -/
+example : ¬ ∀ s, (budgetEvent 1).isStopped ((budgetEvent 1).touch s) = (budgetEvent 1).isStopped s :=
+  fun h => absurd (h (0, false)) (by decide)
+
 end Clikit.Props.C12
